@@ -15,6 +15,7 @@ import (
 // Child runs cases in a separate process so that a panic in a goroutine the harness did not start
 // (which cannot be recovered) or a hang only loses one case.  Protocol: one request line, one answer line.
 type Child struct {
+	prefix []string // command prefix (e.g. taskset -c 0)
 	prop   string
 	cmd    *exec.Cmd
 	in     io.WriteCloser
@@ -28,8 +29,15 @@ func StartChild(prop string) (*Child, error) {
 	return c, c.start()
 }
 
+// StartChildWith runs the child under a command prefix such as ["taskset", "-c", "0"].
+func StartChildWith(prefix []string, prop string) (*Child, error) {
+	c := &Child{prop: prop, prefix: prefix}
+	return c, c.start()
+}
+
 func (c *Child) start() error {
-	c.cmd = exec.Command(os.Args[0], "child", c.prop)
+	args := append(append([]string(nil), c.prefix...), os.Args[0], "child", c.prop)
+	c.cmd = exec.Command(args[0], args[1:]...)
 	c.cmd.Env = append(os.Environ(), "GOTRACEBACK=single", "GOMEMLIMIT=6GiB")
 	in, err := c.cmd.StdinPipe()
 	if err != nil {
